@@ -296,6 +296,10 @@ _CONST_SITES = [
     "query ($a: Int = %v) { f }", "query ($a: Int %s) { f }", "query ($a: Int) %s { f }", "{ f %s }", "{ ...F %s }", "{ ... %s { f } }", "fragment F on T %s { f }",
 ]
 _CONST_VALUES = ["1", "$v", "[$v]", "{k: $v}", "[[{k: [$v]}]]"]
+# names that are proper substrings / prefixes of the reserved words (valid wherever the reserved word is not)
+HAND_DOCUMENTS += ["{ ...%s } fragment %s on %s { %s }" % (n, n, n, n) for n in ("o", "n", "onn", "oon", "On")] + \
+                  ["enum E { %s }" % n for n in ("t", "tru", "truee", "f", "nul", "nulll", "True", "NULL", "u", "e")] + \
+                  ["{ f(x: %s) }" % n for n in ("tru", "nul", "fals", "t", "n", "On")]
 HAND_DOCUMENTS += [t.replace("%s", "@d(a: %s)" % v).replace("%v", v) for t in _CONST_SITES for v in _CONST_VALUES]
 
 
@@ -481,7 +485,7 @@ def block_string_check(tier, jobs=16):
 # -------------------------------------------------------------------------------------------
 # C03: print o parse round trip (bounded)
 
-PAYLOAD_ALPHABET = ["a", " ", "\t", "\n", '"', "\\", "\U0001F600", "\u00a0", "\u00e9", "\r"]
+PAYLOAD_ALPHABET = ["a", " ", "\t", "\n", '"', "\\", "\U0001F600", "\u00a0", "\u00e9", "\r", "\u0001", "\u000b", "\u001f", "\u007f", "\u0008", "\u000c"]
 INDENTS = [0, 1, 2, 4, "\t"]
 
 
@@ -674,10 +678,22 @@ def _visitor_chunk(args):
             fails += f2
             fails += VC.check_chain(text, parse)
         fails += VC.check_transforms(text, parse)
+        if text in EQUAL_SIBLING_DOCUMENTS:
+            # without locations structurally equal siblings compare equal: an edit must still hit the node it was made at, not its first equal sibling
+            noloc = lambda t: P.parse(t, allow_type_system=True, experimental_fragment_variables=True, no_location=True)      # noqa: E731
+            f3, ne3 = VC.check_edits(text, noloc)
+            edits += ne3
+            fails += [(c, dict(w, no_location=True), d) for c, w, d in f3]
     return n, nodes, edits, fails
 
 
-VISITOR_DOCUMENTS = [
+EQUAL_SIBLING_DOCUMENTS = [
+    "{ id name id }",
+    "{ f(x: [1, 2, 1], y: {a: 1, b: 2, a: 1}) @tag @other @tag { a a } f { a } }",
+    "query ($a: Int, $b: Int, $a: Int) { ...F x ...F } fragment F on T { a } fragment G on T { a } fragment F on T { a }",
+    "type T { a: Int b: Int a: Int } enum E { A B A } union U = A | B | A",
+]
+VISITOR_DOCUMENTS = EQUAL_SIBLING_DOCUMENTS + [
     "{ x: a @skip(if: true) b y: someField(snake_arg: 1) @include(if: false) { z: inner_field @d(a: [1]) innerField } }",
     "query ($v: Boolean!) { ... on T @d { x: a @skip(if: $v) { y: b @include(if: $v) } } ...F } fragment F on T { fooBar: foo_bar @d fooBar2: fooBar }",
     "mutation { do_it: doIt(input_value: {snake_key: 1}) @d { __typename resultCode: result_code @d } }",
